@@ -15,7 +15,9 @@ def realistic_key(r):
     non-ASCII letters of cased scripts; never starting with a digit or an underscore"""
     k = r.random()
     if k < 0.12:
-        return r.choice(["class", "def", "import", "for", "None", "async", "lambda", "in", "is", "global", "pass", "yield"])
+        w = r.choice(["class", "def", "import", "for", "None", "async", "lambda", "in", "is", "global", "pass", "yield", "from", "return"])
+        # a keyword also in Pascal / upper case: the label is lower-cased by the snake-case step
+        return r.choice([w, w, w.capitalize(), w.upper()])
     if k < 0.24:
         return r.choice(["list", "dict", "type", "id", "str", "int", "object", "print", "len", "max", "filter", "format", "hash", "input"])
     if k < 0.30:
